@@ -120,7 +120,7 @@ def record_sessions(rnd, nsessions, maxlen, root):
                 seq += 1
                 if pending_recheck and rnd.random() < 0.7:
                     # switch regeneration off for that kind (or altogether), then repeat the assertion
-                    ty, kind, paths, actual = pending_recheck
+                    ty, kind, paths, actual, opts = pending_recheck
                     pending_recheck = None
                     if rnd.random() < 0.5:
                         sess.set_regeneration(kind, False)
@@ -131,10 +131,10 @@ def record_sessions(rnd, nsessions, maxlen, root):
                             events.append({'tid': tid, 'seq': seq, 'ev': 'SetRegeneration', 'kind': k, 'flag': False})
                             seq += 1
                     seq += 1
-                    out, wrote, detail = sess.do_assert(ty, kind, paths, actual)
+                    out, wrote, detail = sess.do_assert(ty, kind, paths, actual, opts)
                     events.append({'tid': tid, 'seq': seq, 'ev': 'Assert', 'type': ty, 'kind': kind, 'paths': paths,
                                    'actual': actual, 'outcome': out, 'wrote': wrote, 'refs': sess.abstract_refs(),
-                                   'detail': detail})
+                                   'detail': detail, 'options': sorted(opts)})
                     continue
                 if rnd.random() < 0.35:
                     kind = rnd.choice(['NoKind'] + kinds)
@@ -149,12 +149,16 @@ def record_sessions(rnd, nsessions, maxlen, root):
                     paths = paths[::-1]
                 npool = len(sess.pools[ty])
                 actual = ['c%d' % rnd.randrange(npool) for _ in paths]
-                out, wrote, detail = sess.do_assert(ty, kind, paths, actual)
+                # per-line stripping options of the text assertions: they concern the comparison, never what is written
+                opts = {}
+                if ty in ('string', 'textfile', 'textfiles') and rnd.random() < 0.35:
+                    opts = rnd.choice([{'rstrip': True}, {'lstrip': True}, {'lstrip': True, 'rstrip': True}])
+                out, wrote, detail = sess.do_assert(ty, kind, paths, actual, opts)
                 events.append({'tid': tid, 'seq': seq, 'ev': 'Assert', 'type': ty, 'kind': kind, 'paths': paths,
                                'actual': actual, 'outcome': out, 'wrote': wrote, 'refs': sess.abstract_refs(),
-                               'detail': detail})
+                               'detail': detail, 'options': sorted(opts)})
                 if wrote:
-                    pending_recheck = (ty, kind, paths, actual)
+                    pending_recheck = (ty, kind, paths, actual, opts)
         finally:
             sess.close()
     return events
@@ -350,6 +354,8 @@ def replay_pytest_options(chk, rnd, n):
         if rnd.random() < 0.6:
             ks = rnd.sample(kinds_pool, rnd.randint(1, 3))
             write = [','.join(ks)] if rnd.random() < 0.5 else ks
+            if rnd.random() < 0.3:
+                write = write[:-1] + [write[-1] + ',']          # a trailing comma names an empty kind, not every kind
         opts = {'--wquiet': rnd.random() < 0.3, '--write-all': write_all, '--write': write,
                 '--tagged': False, '--istagged': False}
         rl.reset_reftest_state()
